@@ -714,6 +714,13 @@ func sigParamTypes(sig *types.Signature, n int) []types.Type {
 // havocLocs forgets the listed locations.
 func (x *Exec) havocLocs(st *State, env *Env, locs []Loc) {
 	for _, l := range locs {
+		if l.When != "" {
+			if v, ok := env.vars[l.When]; ok {
+				if t, ok := v.(*Term); ok && t == tFalse {
+					continue // not written in this call
+				}
+			}
+		}
 		switch {
 		case l.All:
 			if x.curIface != nil && x.fn != nil {
